@@ -60,7 +60,7 @@ func c06wCookie(w *ResponseWriter, dst []byte) bool {
 //verif:entry tier=quick,thorough
 //verif:also C05
 //verif:expect udp-datagram-within-the-negotiated-size no-opt-for-a-client-without-edns ad-cleared-for-opted-out-client some-wire-reply-sent
-//verif:bound negotiated size 512 or 1232; body length from the size down to size-95 (every length); client with/without EDNS, with/without cookie; NSID absent, 12 or 170 octets and requested or not; Extended DNS Error absent or the 30-octet cached-failure text; UDP or TCP; DO and no-AD flags symbolic
+//verif:bound negotiated size 512 or 1232; body length from size+4 down to size-95 (every length); client with/without EDNS, with/without cookie; NSID absent, 12 or 170 octets and requested or not; Extended DNS Error absent or the 30-octet cached-failure text; UDP or TCP; DO and no-AD flags symbolic
 //verif:outside the OPT's content (VerifC05_* parity harnesses); bodies with DNSSEC records for a DO=0 client (declined before this point)
 func VerifC06_WireReplyWithinUDPCeiling() {
 	size := []int{512, 1232}[vChoice("negotiated.size", 2)]
@@ -75,7 +75,7 @@ func VerifC06_WireReplyWithinUDPCeiling() {
 		copy(w.cookieRaw[:], vBytes("client.cookie.octets", 8))
 	}
 	w.nsid = vBool("client.asked.nsid")
-	body := make([]byte, size-vChoice("body.slack", 96))
+	body := make([]byte, size+4-vChoice("body.slack", 100))
 	body[2] = 0x80 // QR
 	if vBool("stored.ad") {
 		body[3] |= 0x20
